@@ -61,7 +61,7 @@ def short(path):
     i = 0
     n = len(s)
     while i < n:
-        if s.startswith("::<", i):
+        if s.startswith("::<", i) and not s.startswith("::<impl ", i):
             j = i + 2
             d = 0
             while j < n:
